@@ -2,8 +2,9 @@
    correspondence/oracle runs. ExtrOcamlBasic only: numbers stay the extracted inductives;
    no Extract Constant directives of our own. *)
 From Coq Require Extraction ExtrOcamlBasic.
-From Verif Require Import Spend Ast TypeCheck SatSpec Sat.
+From Verif Require Import Spend Ast TypeCheck SatSpec Sat ExecTr.
 Extraction Language OCaml.
 Extraction "model.ml" verify_spend verify_wsh verify_sh verify_bare verify_tr parse_script exec accepts
   serialize enc encode num_encode num_decode pushonly_stack
-  type_of sd all_sat all_dsat after_ok older_ok sat_dissat satisfy fill_all.
+  type_of sd all_sat all_dsat after_ok older_ok sat_dissat satisfy fill_all
+  exec_tr trace_of_script count_ops.
